@@ -1088,6 +1088,16 @@ class Evaluator:
         kws = kws2
         if is_method:
             name = e.func.attr
+            if name == 'pop' and bt[0] == 'dict' and len(pos) >= 1 and is_c(pos[0]):
+                # pop on a literal dict: the value, and the variable keeps the remaining literal
+                hit = [(k, v) for k, v in bt[1] if k == pos[0]]
+                if hit:
+                    key = _lvalue_key(e.func.value)
+                    if key:
+                        st.env[key] = ('dict', tuple((k, v) for k, v in bt[1] if k != pos[0]))
+                    return [(hit[0][1], st, 'ok')]
+            if name == 'copy' and bt[0] in ('dict', 'list') and not pos:
+                return [(bt, st, 'ok')]
             t = ('meth', name, bt, tuple(pos), tuple(sorted(kws, key=lambda x: x[0])))
             if name in MUTATING_METHODS:
                 key = _lvalue_key(e.func.value)
